@@ -34,7 +34,9 @@ Record Inv (T : truth) (st : state) : Prop := mkInv {
   i_wft : WFT T;
   i_live : forall w ei, In (w, ei) (eps st) -> live_ok st w ei;
   i_closed : forall j w c s, In (j, (w, c, s)) (closed st) ->
-             forall ms, lin (groups s) ms -> snd (apply_checked w cinit ms) = true }.
+             forall ms, lin (groups s) ms -> snd (apply_checked w cinit ms) = true;
+  i_wfc : WFC T;
+  i_cidx : forall j w c s, In (j, (w, c, s)) (closed st) -> cfree T j }.
 
 Lemma inv_wfb : forall T st, Inv T st -> WFb st.
 Proof.
@@ -107,10 +109,10 @@ Lemma broadcast_inv : forall T T' st st' m,
   (forall k, v_ns (vapply (stv st) m) k = v_ns (stv st') k) ->
   v_sync (vapply (stv st) m) = v_sync (stv st') ->
   pols st' = t_pols T' -> profs st' = t_profs T' -> ipsets st' = t_ips T' -> sas st' = t_sas T' -> nss st' = t_nss T' ->
-  insync st' = t_insync T' -> njoins st' = t_njoins T' -> t_eps T' = t_eps T -> t_conn T' = t_conn T ->
+  insync st' = t_insync T' -> njoins st' = t_njoins T' -> t_eps T' = t_eps T -> t_conn T' = t_conn T -> t_njoins T' = t_njoins T ->
   fal (sas st') -> fal (nss st') -> WFT T' -> Inv T' st'.
 Proof.
-  intros T T' st st' m I N HE HP HF HI HC XA XN XS E1 E2 E3 E4 E5 E6 E7 E8 E9 FA FN W.
+  intros T T' st st' m I N HE HP HF HI HC XA XN XS E1 E2 E3 E4 E5 E6 E7 E8 E9 E10 FA FN W.
   constructor; try assumption.
   - intro w. rewrite E8, E9, <- (i_abs _ _ I w). unfold absw. rewrite HE. unfold broadcast. rewrite lookup_map_snd.
     destruct (lookup w (eps st)) as [ei|]; simpl; [|reflexivity].
@@ -131,4 +133,6 @@ Proof.
         unfold emit; rewrite O; unfold epo_of; simpl. apply tgt_X; assumption.
     + unfold live_ok in L. rewrite O in L. unfold live_ok, emit. rewrite O. rewrite ?O. exact L.
   - intros j w c s H. rewrite HC in H. apply (i_closed _ _ I j w c s H).
+  - unfold WFC. rewrite E9, E10. apply (i_wfc _ _ I).
+  - intros j w c s H. rewrite HC in H. unfold cfree. rewrite E9, E10. apply (i_cidx _ _ I j w c s H).
 Qed.
